@@ -51,6 +51,18 @@ type bindV struct {
 	Name    string   `form:"name" query:"name" json:"name" xml:"name" validate:"required"`
 }
 
+// bindOrder carries its validation rules only in the elements of a slice.
+type bindOrder struct {
+	XMLName xml.Name   `json:"-" xml:"order"`
+	Note    string     `json:"note" xml:"note"`
+	Lines   []bindLine `json:"lines" xml:"lines"`
+}
+
+type bindLine struct {
+	Sku string `json:"sku" xml:"sku" validate:"required"`
+	Qty int    `json:"qty" xml:"qty" validate:"required|min:1"`
+}
+
 var bodyMethods = map[string]bool{"POST": true, "PUT": true, "PATCH": true}
 
 var strPool = []string{"", "a", "hello world", "ünïcödé 日本", "a&b=c", "x+y;z", "100%", "%41", "\"quoted\" 'q'", "<tag>&amp;", "tab\there", "line\nbreak", " lead", "trail ", "a=b&c=d", "{json}", "[1,2]", "null", "true", "0"}
@@ -512,8 +524,44 @@ func runC18(e *Env) {
 	// ---- validation ----
 	e.RunCases("validation", e.N(4000, 300000), 1, func(t *T) {
 		r := t.R
-		mode := pick(r, []string{"recording", "recording", "stock", "disabled"})
+		mode := pick(r, []string{"recording", "recording", "stock", "disabled", "stock-nested"})
 		format := pick(r, []string{"form", "json", "xml", "query", "multipart"})
+		if mode == "stock-nested" {
+			// the rules live in the elements of a slice of structs (JSON / XML bodies)
+			format = pick(r, []string{"json", "xml"})
+			o := bindOrder{Note: pick(r, []string{"", "n"})}
+			valid := true
+			for i, n := 0, 1+r.IntN(3); i < n; i++ {
+				l := bindLine{Sku: pick(r, []string{"a", "b", "a", ""}), Qty: pick(r, []int{1, 2, 5, 0, -1})}
+				if l.Sku == "" || l.Qty < 1 {
+					valid = false
+				}
+				o.Lines = append(o.Lines, l)
+			}
+			var body []byte
+			ctype := "application/json"
+			if format == "json" {
+				body, _ = json.Marshal(o)
+			} else {
+				ctype = "application/xml"
+				body, _ = xml.Marshal(o)
+			}
+			t.Describe(func() any {
+				return map[string]any{"validator": mode, "format": format, "order": fmt.Sprintf("%+v", o.Lines), "body": string(body)}
+			})
+			t.AutoSample()
+			t.NonTrivial(fmt.Sprint(mode, format, o.Lines))
+			binding.ResetValidator()
+			defer binding.ResetValidator()
+			var got bindOrder
+			err := binding.Auto(NewReqBody("POST", "/p", ctype, body), &got)
+			t.Count("validation.stock_nested", 1)
+			t.Tracef("bound %+v err=%v", got.Lines, err)
+			if valid != (err == nil) {
+				t.Fail("stock-validator-verdict-nested", "%s bind of an order with lines %+v (rules required / required|min:1 on the line struct): expected valid=%v, bind returned err=%v", format, o.Lines, valid, err)
+			}
+			return
+		}
 		age := pick(r, []int{-3, 0, 1, 5})
 		name := pick(r, []string{"", "n", "bob"})
 		v := url.Values{"age": {strconv.Itoa(age)}, "name": {name}}
